@@ -165,13 +165,20 @@ def hostile_list_op(rnd, spec):
     return None
 
 
+def edited_inside(h, e):
+    """the edited object(s) belong to the system (objects outside it are not computed by the fresh build the oracle relies on)"""
+    inside = reachable(h.spec)
+    objs_ = [c["obj"] for c in e["changes"]] if e["op"] == "group" else [e.get("obj")]
+    return all(o in inside for o in objs_ if o is not None)
+
+
 def run_case(case):
     E = env.load()
     rnd = case_rng(case["seed"], case["idx"], "C16")
     h = Hist(rnd, case["tier"], max_len=24)
     C = {k: 0 for k in ("invariant_evaluations", "list_operations", "noop_list_operations", "python_list_would_raise", "link_assignments",
                         "cross_system_attempts", "self_delete_attempts", "rolled_back_operations", "after_simulation", "reverse_links_compared",
-                        "operations", "link_changing_operations", "refused_valid_looking", "build_failed")}
+                        "operations", "link_changing_operations", "refused_valid_looking", "build_failed", "raised_on_objects_outside_the_system")}
     classes = set()
     if h.build_error:
         C["build_failed"] = 1
@@ -209,7 +216,9 @@ def run_case(case):
             if would_raise and exc is None:
                 V.append({"kind": "list operation that a Python list refuses was accepted", "operation": edits.describe(e), **ctx})
             elif not would_raise and exc is not None:
-                if ref_ok:
+                if ref_ok and not edited_inside(h, e):
+                    C["raised_on_objects_outside_the_system"] += 1      # the fresh build does not compute them: legitimacy undecided
+                elif ref_ok:
                     V.append({"kind": "list operation raised although a Python list accepts it and the resulting model is valid",
                               "operation": edits.describe(e), "error": f"{type(exc).__name__}: {str(exc)[:160]}", **ctx})
                 else:
@@ -255,7 +264,9 @@ def run_case(case):
             ref, err = h.reference(spec_after)
             exc = h.apply(e, spec_after)
             seq.append(edits.describe(e))
-            if exc is not None and ref is not None:
+            if exc is not None and ref is not None and not edited_inside(h, e):
+                C["raised_on_objects_outside_the_system"] += 1
+            elif exc is not None and ref is not None:
                 V.append({"kind": "link assignment raised although the resulting model is valid", "operation": edits.describe(e),
                           "error": f"{type(exc).__name__}: {str(exc)[:160]}", **ctx})
             elif exc is None:
@@ -270,6 +281,8 @@ def run_case(case):
             attr = edits.LIST_ATTRS[cls][0]
             classes.add("assign_live_list_of_other_object")
             e = {"op": "set", "obj": a, "attr": attr, "value": ["refs", list(h.spec["objects"][b]["params"][attr][1])]}
+            if not edits.admissible(e, h.spec):
+                continue
             spec_after = h.spec_after(e)
             ref, err = h.reference(spec_after)
             try:
@@ -277,7 +290,9 @@ def run_case(case):
                 h.spec = spec_after; h.log.append({"edit": f"{a}.{attr} = {b}.{attr} (the live list)", "result": "ok"})
             except Exception as exc:
                 h.log.append({"edit": f"{a}.{attr} = {b}.{attr} (the live list)", "result": f"raised {type(exc).__name__}"})
-                if ref is not None:
+                if ref is not None and not edited_inside(h, e):
+                    C["raised_on_objects_outside_the_system"] += 1
+                elif ref is not None:
                     V.append({"kind": "assigning the list held by another object raised although the resulting model is valid",
                               "operation": f"{a}.{attr} = {b}.{attr}", "error": f"{type(exc).__name__}: {str(exc)[:160]}", **ctx})
             seq.append(f"{a}.{attr}={b}.{attr}")
